@@ -437,6 +437,11 @@ func RunC11(r *Run) {
 		if r.Choose("random-cancel", 8) == 0 {
 			cancelRate = 60
 		}
+		if small && r.Choose("enumerate-single-faults", 3) == 0 {
+			// small log: every single block x every fault kind, completely (one fetch each)
+			w.enumerateSingleFaults(n, all, heads, headCids, conc)
+			continue
+		}
 		w.St.Reqs = nil
 		w.St.ReqAfterCancel = 0
 		d := &FetchDriver{R: r, St: w.St, Name: w.M.Name, HookBias: r.Choose("bias", 3), CancelRate: cancelRate}
@@ -495,4 +500,64 @@ func RunC11(r *Run) {
 	}
 	w.St.GetFaults = map[string]GetFault{}
 	r.SimNS = w.Now * 1e6
+}
+
+// enumerateSingleFaults: for a small stored log, every block is made faulty in every way, one at a
+// time, and the unbounded fetch is checked against the reachable-set model each time.
+func (w *World) enumerateSingleFaults(n *Node, all, heads []string, headCids []cid.Cid, conc int) {
+	r := w.R
+	bias := r.Choose("bias", 3)
+	count := 0
+	for _, h := range all {
+		for k := FaultNotFound; k <= FaultStall; k++ {
+			w.St.GetFaults = map[string]GetFault{h: k}
+			w.St.Alt = map[string][]byte{h: garbageCBOR}
+			w.St.Reqs = nil
+			bad := map[string]bool{h: true}
+			d := &FetchDriver{R: r, St: w.St, Name: w.M.Name, HookBias: bias}
+			ctx, cancel := context.WithCancel(w.ctx)
+			d.Cancel = cancel
+			var got []iface.IPFSLogEntry
+			d.Run(func() {
+				got = entry.FetchAll(ctx, w.St, headCids, &entry.FetchOptions{Concurrency: conc, IO: w.IO})
+			})
+			cancel()
+			count++
+			if d.Leaked > 0 {
+				r.Violate("C11:leak", "FetchAll returned while %d block requests or workers were still outstanding", d.Leaked)
+			}
+			var gs []string
+			for _, e := range got {
+				gs = append(gs, e.GetHash().String())
+			}
+			sort.Strings(gs)
+			if hasDup(gs) {
+				r.Violate("C11:duplicate-entry", "FetchAll returned an entry twice: %v", w.M.Names(gs))
+			}
+			seen := map[string]bool{}
+			for _, q := range w.St.Reqs {
+				if seen[q] {
+					r.Violate("C11:duplicate-request", "block %s was requested twice (block %s %s)", w.M.Name(q), w.M.Name(h), k)
+				}
+				seen[q] = true
+			}
+			want := w.reachable(heads, bad, map[string]bool{})
+			if d.Cancelled {
+				for _, x := range gs {
+					if !want[x] {
+						r.Violate("C11:unreachable-returned", "cancelled fetch returned %s which is not reachable along retrievable entries", w.M.Name(x))
+					}
+				}
+				continue
+			}
+			if joinS(gs) != joinS(sortedKeys(want)) {
+				r.Violate("C11:reachable-set", "with block %s %s the fetch returned %v, reachable along retrievable entries are %v", w.M.Name(h), k, w.M.Names(gs), w.M.Names(sortedKeys(want)))
+			}
+		}
+	}
+	w.St.GetFaults = map[string]GetFault{}
+	w.St.Alt = map[string][]byte{}
+	r.Add("enumerated-single-fault-fetches", int64(count))
+	r.Probe("single-faults-enumerated-completely")
+	r.Logf("enumerated %d single-fault fetches on n%d (%d blocks x 4 kinds)", count, n.Idx, len(all))
 }
